@@ -249,8 +249,9 @@ func c14Caller(x *Ctx, u *UfsSys, clnt *go9p.Clnt, ci int, ops []Op) {
 			}
 			if err != nil {
 				viol("e2-read", "Clnt.Read(%q, off=%d, count=%d) failed: %v", f.name, off, cnt, err)
-			} else if !bytes.Equal(data, want(off, n)) {
-				viol("e2-read", "Clnt.Read(%q, off=%d, count=%d) returned %d bytes, want the %d bytes of the file at that offset (file length %d)", f.name, off, cnt, len(data), len(want(off, n)), len(f.model))
+			} else if w := want(off, n); len(data) > len(w) || !bytes.Equal(data, w[:len(data)]) || (len(data) == 0 && len(w) > 0) {
+				// (a single Tread may return fewer bytes than asked for; what it returns must be the file's)
+				viol("e2-read", "Clnt.Read(%q, off=%d, count=%d) returned %d bytes that are not the first bytes of the %d the file has at that offset (file length %d)", f.name, off, cnt, len(data), len(w), len(f.model))
 			}
 			if off >= len(f.model) {
 				x.Probe("read-at-or-past-eof")
@@ -321,8 +322,8 @@ func c14Caller(x *Ctx, u *UfsSys, clnt *go9p.Clnt, ci int, ops []Op) {
 				}
 			case err != nil:
 				viol("e2-read", "File.%s(%q, off=%d, len=%d) failed: %v", op.K, f.name, at, cnt, err)
-			case n != len(w) || !bytes.Equal(buf[:n], w):
-				viol("e2-read", "File.%s(%q, off=%d, len=%d) returned %d bytes, want %d bytes equal to the file", op.K, f.name, at, cnt, n, len(w))
+			case n > len(w) || !bytes.Equal(buf[:n], w[:n]) || (n == 0 && len(w) > 0 && cnt > 0):
+				viol("e2-read", "File.%s(%q, off=%d, len=%d) returned %d bytes that are not the first bytes of the %d the file has there", op.K, f.name, at, cnt, n, len(w))
 			}
 			if op.K == "fread" && err == nil {
 				f.foff += n
